@@ -538,3 +538,113 @@ Proof.
   destruct (Link_install_total p b prev alloc Hwf Hl Hn) as [km Hk].
   exact (Link_kernel_decides_program p b prev alloc dm pk wan km Hwf Hl Hk Hprobe Hbm Hdom).
 Qed.
+
+(* ------------------------------------------------------------------------------------------------ *)
+(* Part 5: findings about the interface of the two models, with witnesses                             *)
+(* ------------------------------------------------------------------------------------------------ *)
+
+(* FINDING 1 (size).  C01's quantifier (wf_program) puts no bound on the size of a program, C02's installation does:
+   routing_map has MaxMatchSetLen = 1024 entries.  A well-formed program of 1025 one-condition rules lowers (C01 is
+   total) to 1026 match-sets; the userspace matcher decides it, buildRoutingKernspace rejects it (BatchUpdate beyond
+   max_entries, error class E_TOO_MANY_RULES).  So `install ... = Ok km` (equivalently: at most 1024 match-sets,
+   Link_install_fails_iff_too_large) is a genuine extra hypothesis of the composition, not derivable from wf_program. *)
+Definition big_program : program :=
+  {| pr_rules := repeat {| r_conds := [ {| c_kind := FPort; c_neg := false; c_params := [(0, VRange 80 80)] |} ];
+                           r_out := {| o_name := "direct"; o_params := [] |} |} 1025;
+     pr_fallback := {| o_name := "direct"; o_params := [] |};
+     pr_groups := [("direct"%string, 0)] |}.
+
+Example Link_install_needs_size_bound :
+  wf_program big_program = true /\
+  match lower_program big_program with
+  | Ok b => Nat.eqb (List.length (b_rules b)) 1026 &&
+            match install empty_kmaps (b_rules b) (b_tries b) 0 with Err e => e =? E_TOO_MANY_RULES | Ok _ => false end &&
+            match build_userspace b with Ok _ => true | Err _ => false end
+  | Err _ => false
+  end = true.
+Proof. split; vm_compute; reflexivity. Qed.
+
+(* FINDING 2 (sharpness of the mark bound; no mismatch).  The one numeric side condition of wf_program that exists only
+   for the sake of the kernel encoding is outbound_ok's `mark < 2^32` (struct match_set.mark is a __u32, the result word
+   carries 32 mark bits).  It is exactly what wf_mset asks, and it cannot be dropped: with direct(mark: 2^32) as the
+   fallback the userspace model answers mark 2^32, the kernel mark 0. *)
+Definition wide_mark_program : program :=
+  {| pr_rules := []; pr_fallback := {| o_name := "direct"; o_params := [OMark (2 ^ 32)] |};
+     pr_groups := [("direct"%string, 0)] |}.
+
+Example Link_mark_bound_is_needed :
+  let pk := C01_Proofs.ex_pk 80 "" 0 0xffff01020304 (repeat 0 16) 0 in
+  wf_program wide_mark_program = false /\
+  decide wide_mark_program pk = (0, 2 ^ 32, false) /\
+  model_route wide_mark_program (fun _ => []) pk = Ok (0, 2 ^ 32, false) /\
+  match lower_program wide_mark_program with
+  | Ok b => negb (forallb (wf_mset (N.of_nat (List.length (b_tries b)))) (b_rules b)) &&
+            match kernel_decides empty_kmaps (b_rules b) (b_tries b) 0 None pk false with
+            | Ok (Some (0, 0, false)) => true | _ => false end
+  | Err _ => false
+  end = true.
+Proof. cbv zeta. repeat split; vm_compute; reflexivity. Qed.
+
+(* ------------------------------------------------------------------------------------------------ *)
+(* Part 6: non-vacuity on C01's example program                                                       *)
+(* ------------------------------------------------------------------------------------------------ *)
+
+(* C01's ex_program (all ten functions, negation, must_rules, a must_ prefix, a mark): 13 match-sets, 3 tries, two
+   domain sets (indices 2 and 3).  The hypotheses of Link_kernel_decides_program hold for it at ring offset 1022
+   (wrapping), for a LAN probe decided at rule 2, a WAN probe with process name decided at rule 3, a LAN probe decided
+   by the fallback, and a TCP DNS probe that no must rule covers (handed to the control plane); the values are also
+   computed directly from the installed bytes. *)
+Definition ex_dm12 : string -> list N :=
+  fun s => if String.eqb s "www.example.com" then 4 :: repeat 0 31 else repeat 0 32.
+Definition ex_tcp_dns : packet :=
+  {| p_src := 0xffffc0a80101; p_dst := 0xffff08080808; p_sport := 40000; p_dport := 53; p_l4 := TCP; p_ipver := V4;
+     p_domain := ""; p_regex_hits := []; p_pname := repeat 0 16; p_mac := 0x0242ac110003; p_dscp := 0 |}.
+
+Lemma ex_oracle pk : (p_domain pk = "www.example.com"%string \/ p_domain pk = ""%string) -> p_regex_hits pk = [] ->
+  C01_domain_oracle_agrees ex_program ex_dm12 pk.
+Proof.
+  intros Hd Hh b Hb. vm_compute in Hb. inversion Hb; subst b. clear Hb. intros i key vals Hin. cbn [b_domsets] in Hin.
+  rewrite Hh. destruct Hd as [-> | ->]; destruct Hin as [E|[E|[]]]; inversion E; subst; vm_compute; reflexivity.
+Qed.
+
+Example Link_C01_C02_nonvacuous :
+  let curl := ([99; 117; 114; 108] ++ repeat 0 12)%list in
+  let pk1 := C01_Proofs.ex_pk 53 "www.example.com" 1 0xffff01020304 (repeat 0 16) 0 in
+  let pk2 := C01_Proofs.ex_pk 53 "www.example.com" 0 0xffff0a010203 curl 8 in
+  let pk3 := C01_Proofs.ex_pk 80 "" 0 0xffff01020304 (repeat 0 16) 0 in
+  let kd pk wan :=
+    match lower_program ex_program with
+    | Ok b => kernel_decides empty_kmaps (b_rules b) (b_tries b) 1022
+                (dom_entry (if String.eqb (p_domain pk) "" then None else Some (ex_dm12 (p_domain pk)))) pk wan
+    | Err e => Err e
+    end in
+  wf_program ex_program = true /\
+  (exists b km, lower_program ex_program = Ok b /\ List.length (b_rules b) = 13%nat /\ List.length (b_tries b) = 3%nat /\
+                forallb (wf_mset 3) (b_rules b) = true /\ install empty_kmaps (b_rules b) (b_tries b) 1022 = Ok km) /\
+  probe_ok pk1 false = true /\ probe_ok pk2 true = true /\ probe_ok pk3 false = true /\ probe_ok ex_tcp_dns false = true /\
+  bitmap_ok (ex_dm12 "www.example.com") = true /\ bitmap_ok (ex_dm12 "") = true /\
+  C01_domain_oracle_agrees ex_program ex_dm12 pk1 /\ C01_domain_oracle_agrees ex_program ex_dm12 pk2 /\
+  C01_domain_oracle_agrees ex_program ex_dm12 pk3 /\ C01_domain_oracle_agrees ex_program ex_dm12 ex_tcp_dns /\
+  kd pk1 false = Ok (Some (2, 16, true)) /\ decide ex_program pk1 = (2, 16, true) /\
+  kd pk2 true = Ok (Some (1, 0, true)) /\ decide ex_program pk2 = (1, 0, true) /\
+  kd pk3 false = Ok (Some (0, 0, false)) /\ decide ex_program pk3 = (0, 0, false) /\
+  kd ex_tcp_dns false = Ok (Some (CONTROL_PLANE_ROUTING, 0, false)) /\ decide ex_program ex_tcp_dns = (0, 0, false).
+Proof.
+  cbv zeta. split; [vm_compute; reflexivity|].
+  split. { eexists. eexists. split; [vm_compute; reflexivity|]. repeat split; vm_compute; reflexivity. }
+  do 6 (split; [vm_compute; reflexivity|]).
+  do 4 (split; [apply ex_oracle; [cbn; auto|reflexivity]|]).
+  repeat split; vm_compute; reflexivity.
+Qed.
+
+Print Assumptions Link_lowered_msets_in_range.
+Print Assumptions Link_lowered_tries_le_rules.
+Print Assumptions Link_lowered_tries_wf_prefix.
+Print Assumptions Link_kernel_decides_program.
+Print Assumptions Link_kernel_real_decides_program_closed.
+Print Assumptions Link_install_total.
+Print Assumptions Link_install_fails_iff_too_large.
+Print Assumptions Link_kernel_decides_program_total.
+Print Assumptions Link_install_needs_size_bound.
+Print Assumptions Link_mark_bound_is_needed.
+Print Assumptions Link_C01_C02_nonvacuous.
